@@ -42,8 +42,9 @@ const EmptyIndex = 901
 
 // FeeIndex, PosIndex: the addresses of the fee collector and of the pos module account.
 const (
-	FeeIndex = 902
-	PosIndex = 903
+	FeeIndex  = 902
+	PosIndex  = 903
+	PoolIndex = 904 // the staked-tokens pool
 )
 
 func Addr(i int) sdk.Address {
@@ -55,6 +56,9 @@ func Addr(i int) sdk.Address {
 	}
 	if i == PosIndex {
 		return sdk.Address(PosAddr)
+	}
+	if i == PoolIndex {
+		return sdk.Address(PoolAddr)
 	}
 	if i == EmptyIndex {
 		return sdk.Address{}
